@@ -1,5 +1,6 @@
 import Vflow.Model.IpfixProg
 import Vflow.Proofs.RdLemmas
+import Vflow.Proofs.EqnsIpfix
 /-!
 # Lemmas: the interpreted translation of `ipfix/decoder.go` is the model
 
@@ -155,6 +156,7 @@ end fields
 macro "ir_simp" "[" ls:Lean.Parser.Tactic.simpLemma,* "]" : tactic =>
   `(tactic| simp [blk, exec, eval, evalList, evalArgs, zero, wrap, subAt, binInt, veq, lenV, indexV, appendV, elemsV,
       readLHS, writeLHS, writeAll, getPath, setPath, readSlots, refSlots, errReader, List.replicate, List.filter,
+      errClasses, errConsts, List.lookup,
       ParamKind.hasSlot, builtin_rdU8, builtin_rdU16, builtin_rdU32, builtin_rdPeekU16, builtin_rdRead, $ls,*])
 
 /-! ## `getDataLength` -/
@@ -253,5 +255,324 @@ theorem minRecordLen_sem (addr : Bytes) (fuel : Nat) (st : St) (t : Template) :
     ir_simp [mrl, Stmt.nth, Stmt.items, Gen.IpfixIR.minRecordLen]
   simp only [blk, exec, e0, e1, e2, e3, e4]
   simp [Gen.IpfixIR.minRecordLen, readSlots, refSlots, Ipfix.minRecLen, List.sum_append, List.filter, ParamKind.hasSlot]
+
+/-! ## `decodeData` -/
+attribute [local irreducible] Vflow.lookupElem
+
+
+/-- one step of `Ipfix.decFields` -/
+def decField (f : Spec) (r : Rd) : Except Err DField × Rd :=
+  match lookupElem f.ent f.id with
+  | none => (.error .unknownElem, r)
+  | some (fid, ty) =>
+    match Ipfix.dataLen r f.len with
+    | (.error e, r1) => (.error e, r1)
+    | (.ok n, r1) =>
+      match r1.readN n with
+      | none => (.error .short, r1)
+      | some (b, r2) => (.ok ⟨fid, f.ent, interpret b ty⟩, r2)
+
+theorem decFields_cons (f : Spec) (fs : List Spec) (r : Rd) (acc : Record) :
+    Ipfix.decFields (f :: fs) r acc =
+      match decField f r with
+      | (.error e, r') => (.error e, r')
+      | (.ok d, r') => Ipfix.decFields fs r' (acc ++ [d]) := by
+  unfold decField
+  rw [Ipfix.decFields_cons]
+  generalize lookupElem f.ent f.id = o
+  rcases o with _ | ⟨fid, ty⟩
+  · rfl
+  · simp only []
+    generalize Ipfix.dataLen r f.len = o
+    rcases o with ⟨_ | n, r1⟩
+    · rfl
+    · simp only []
+      rcases r1.readN n with _ | ⟨b, r2⟩ <;> rfl
+
+theorem exists_env_iff (out : Res) (f : Flow) (s : St) :
+    (∃ env', out = some (f, s, env')) ↔ out.map (fun p => (p.1, p.2.1)) = some (f, s) := by
+  constructor
+  · rintro ⟨env', rfl⟩; rfl
+  · intro h
+    rcases out with _ | ⟨f', s', env'⟩
+    · simp at h
+    · simp at h; exact ⟨env', by rw [h.1, h.2]⟩
+
+theorem dataLen_err {r r' : Rd} {l : Nat} {e : Err} (h : Ipfix.dataLen r l = (.error e, r')) : e = .short := by
+  unfold Ipfix.dataLen at h
+  split at h
+  · rcases h1 : r.rU8 with _ | ⟨v, r1⟩
+    · simp [h1] at h; exact h.1.symm
+    · simp only [h1] at h
+      split at h
+      · rcases h2 : r1.rU16 with _ | ⟨w, r2⟩
+        · simp [h2] at h; exact h.1.symm
+        · simp [h2] at h
+      · simp at h
+  · simp at h
+
+theorem builtin_infoModel (st : St) (ent id : Nat) : builtin .infoModel [.int ent, .int id] st =
+    match lookupElem ent id with
+    | some (fid, ty) => some (st, [], [.elem fid ty, .bool true])
+    | none => some (st, [], [.elem 0 0, .bool false]) := rfl
+
+def dd (i : Nat) : Stmt := Gen.IpfixIR.decodeData.body.nth i
+
+theorem dd_body : Gen.IpfixIR.decodeData.body = blk [dd 0, dd 1, dd 2, dd 3, dd 4, dd 5, dd 6, dd 7, dd 8, dd 9] := rfl
+
+section
+variable (addr : Bytes) (fuel : Nat) (c : Cache) (t : Template)
+
+/-- the functions `decodeData` calls -/
+abbrev ddLink : Linkage := [("getDataLength", IpfixProg.getDataLength addr fuel)]
+
+/-- outcome of one iteration of the first loop (slots 5, 6, 7 are its `i`, `m`, `ok`) -/
+def Body1Out (res : Except Err DField × Rd) (acc : Record) (i : Nat) (x8 x9 x10 : V) (out : Res) : Prop :=
+  match res with
+  | (.ok d, r') => ∃ j2 j3 j4 j6 j7,
+      out = some (.norm, ⟨r', c⟩, [.tpl t, .drec (acc ++ [d]), j2, j3, j4, .int i, j6, j7, x8, x9, x10])
+  | (.error e, r') => ∃ env', out = some (.ret [.nil, .err ⟨Ipfix.nonfatalErr e, e⟩], ⟨r', c⟩, env')
+
+theorem dd_body1 (r : Rd) (acc : Record) (i : Nat) (f : Spec) (e2 e3 e4 e6 e7 x8 x9 x10 : V)
+    (hf : t.scope[i]? = some f) :
+    Body1Out c t (decField f r) acc i x8 x9 x10
+      (exec addr (ddLink addr fuel) fuel (dd 5).loopBody ⟨r, c⟩
+        [.tpl t, .drec acc, e2, e3, e4, .int i, e6, e7, x8, x9, x10]) := by
+  unfold decField Body1Out
+  generalize hl : lookupElem f.ent f.id = o
+  rcases o with _ | ⟨fid, ty⟩
+  · simp only []
+    rw [exists_env_iff]
+    ir_simp [dd, Stmt.nth, Stmt.items, Stmt.loopBody, Gen.IpfixIR.decodeData, hf, hl, builtin_infoModel, errClasses, List.lookup, Ipfix.nonfatalErr, Err.nonfatal]
+  · simp only []
+    rcases hd : Ipfix.dataLen r f.len with ⟨e | n, r1⟩
+    · simp only []
+      have he := dataLen_err hd; subst he
+      rw [exists_env_iff]
+      ir_simp [dd, Stmt.nth, Stmt.items, Stmt.loopBody, Gen.IpfixIR.decodeData, hf, hl, builtin_infoModel, errClasses, List.lookup, Ipfix.nonfatalErr, Err.nonfatal, getDataLength_sem, hd, IpfixProg.lenResult]
+    · simp only []
+      rcases hr : r1.readN n with _ | ⟨b, r2⟩
+      · simp only []
+        rw [exists_env_iff]
+        ir_simp [dd, Stmt.nth, Stmt.items, Stmt.loopBody, Gen.IpfixIR.decodeData, hf, hl, builtin_infoModel, errClasses, List.lookup, Ipfix.nonfatalErr, Err.nonfatal, getDataLength_sem, hd, IpfixProg.lenResult, hr]
+      · refine ⟨.nil, .bytes b, .int n, .elem fid ty, .bool true, ?_⟩
+        ir_simp [dd, Stmt.nth, Stmt.items, Stmt.loopBody, Gen.IpfixIR.decodeData, hf, hl, builtin_infoModel, errClasses, List.lookup, Ipfix.nonfatalErr, Err.nonfatal, getDataLength_sem, hd, IpfixProg.lenResult, hr]
+
+theorem dd5_shape : dd 5 = .loop (dd 5).loopCond (dd 5).loopBody (dd 5).loopPost := rfl
+
+theorem dd5_cond (st : St) (acc : Record) (i : Nat) (e2 e3 e4 e6 e7 x8 x9 x10 : V) :
+    eval addr st [.tpl t, .drec acc, e2, e3, e4, .int i, e6, e7, x8, x9, x10] (dd 5).loopCond =
+      some (.bool (decide (i < t.scope.length))) := by
+  ir_simp [dd, Stmt.nth, Stmt.items, Stmt.loopCond, Gen.IpfixIR.decodeData]
+
+theorem dd5_post (st : St) (acc : Record) (i : Nat) (e2 e3 e4 e6 e7 x8 x9 x10 : V) :
+    exec addr (ddLink addr fuel) fuel (dd 5).loopPost st [.tpl t, .drec acc, e2, e3, e4, .int i, e6, e7, x8, x9, x10] =
+      some (.norm, st, [.tpl t, .drec acc, e2, e3, e4, .int (i + 1), e6, e7, x8, x9, x10]) := by
+  ir_simp [dd, Stmt.nth, Stmt.items, Stmt.loopPost, Gen.IpfixIR.decodeData]
+
+/-- outcome of the first loop -/
+def Loop1Out (res : Except Err Record × Rd) (x8 x9 x10 : V) (out : Res) : Prop :=
+  match res with
+  | (.ok acc', r') => ∃ j2 j3 j4 j6 j7,
+      out = some (.norm, ⟨r', c⟩, [.tpl t, .drec acc', j2, j3, j4, .int t.scope.length, j6, j7, x8, x9, x10])
+  | (.error e, r') => ∃ env', out = some (.ret [.nil, .err ⟨Ipfix.nonfatalErr e, e⟩], ⟨r', c⟩, env')
+
+theorem dd_loop1 (x8 x9 x10 : V) : ∀ (m i k : Nat) (r : Rd) (acc : Record) (e2 e3 e4 e6 e7 : V),
+    i + m = t.scope.length → m < k →
+    Loop1Out c t (Ipfix.decFields (t.scope.drop i) r acc) x8 x9 x10
+      (loopF (fun st env => eval addr st env (dd 5).loopCond) (exec addr (ddLink addr fuel) fuel (dd 5).loopBody)
+        (exec addr (ddLink addr fuel) fuel (dd 5).loopPost) k ⟨r, c⟩
+        [.tpl t, .drec acc, e2, e3, e4, .int i, e6, e7, x8, x9, x10]) := by
+  intro m
+  induction m with
+  | zero =>
+    intro i k r acc e2 e3 e4 e6 e7 hi hk
+    obtain ⟨k, rfl⟩ : ∃ k', k = k' + 1 := ⟨k - 1, by omega⟩
+    have hd : t.scope.drop i = [] := List.drop_eq_nil_of_le (by omega)
+    rw [hd, Ipfix.decFields_nil]
+    have : ¬ (i < t.scope.length) := by omega
+    simp only [Loop1Out, loopF, dd5_cond, this, decide_false]
+    exact ⟨e2, e3, e4, e6, e7, by rw [show i = t.scope.length from by omega]⟩
+  | succ m ih =>
+    intro i k r acc e2 e3 e4 e6 e7 hi hk
+    obtain ⟨k, rfl⟩ : ∃ k', k = k' + 1 := ⟨k - 1, by omega⟩
+    have hlt : i < t.scope.length := by omega
+    have hd : t.scope.drop i = t.scope[i] :: t.scope.drop (i + 1) := List.drop_eq_getElem_cons hlt
+    have hf : t.scope[i]? = some t.scope[i] := List.getElem?_eq_getElem hlt
+    rw [hd, decFields_cons]
+    have hb := dd_body1 addr fuel c t r acc i t.scope[i] e2 e3 e4 e6 e7 x8 x9 x10 hf
+    simp only [loopF, dd5_cond, hlt, decide_true]
+    rcases hdf : decField t.scope[i] r with ⟨e | d, r'⟩
+    · simp only [hdf, Body1Out] at hb
+      obtain ⟨env', hb⟩ := hb
+      simp only [hb, Loop1Out]
+      exact ⟨env', rfl⟩
+    · simp only [hdf, Body1Out] at hb
+      obtain ⟨j2, j3, j4, j6, j7, hb⟩ := hb
+      simp only [hb, dd5_post]
+      exact ih (i + 1) k r' (acc ++ [d]) j2 j3 j4 j6 j7 (by omega) (by omega)
+/-- outcome of one iteration of the second loop (slots 8, 9, 10 are its `i`, `m`, `ok`) -/
+def Body2Out (res : Except Err DField × Rd) (acc : Record) (i : Nat) (x5 x6 x7 : V) (out : Res) : Prop :=
+  match res with
+  | (.ok d, r') => ∃ j2 j3 j4 j9 j10,
+      out = some (.norm, ⟨r', c⟩, [.tpl t, .drec (acc ++ [d]), j2, j3, j4, x5, x6, x7, .int i, j9, j10])
+  | (.error e, r') => ∃ env', out = some (.ret [.nil, .err ⟨Ipfix.nonfatalErr e, e⟩], ⟨r', c⟩, env')
+
+theorem dd_body2 (r : Rd) (acc : Record) (i : Nat) (f : Spec) (e2 e3 e4 e9 e10 x5 x6 x7 : V)
+    (hf : t.fields[i]? = some f) :
+    Body2Out c t (decField f r) acc i x5 x6 x7
+      (exec addr (ddLink addr fuel) fuel (dd 7).loopBody ⟨r, c⟩
+        [.tpl t, .drec acc, e2, e3, e4, x5, x6, x7, .int i, e9, e10]) := by
+  unfold decField Body2Out
+  generalize hl : lookupElem f.ent f.id = o
+  rcases o with _ | ⟨fid, ty⟩
+  · simp only []
+    rw [exists_env_iff]
+    ir_simp [dd, Stmt.nth, Stmt.items, Stmt.loopBody, Gen.IpfixIR.decodeData, hf, hl, builtin_infoModel, errClasses, List.lookup, Ipfix.nonfatalErr, Err.nonfatal]
+  · simp only []
+    rcases hd : Ipfix.dataLen r f.len with ⟨e | n, r1⟩
+    · simp only []
+      have he := dataLen_err hd; subst he
+      rw [exists_env_iff]
+      ir_simp [dd, Stmt.nth, Stmt.items, Stmt.loopBody, Gen.IpfixIR.decodeData, hf, hl, builtin_infoModel, errClasses, List.lookup, Ipfix.nonfatalErr, Err.nonfatal, getDataLength_sem, hd, IpfixProg.lenResult]
+    · simp only []
+      rcases hr : r1.readN n with _ | ⟨b, r2⟩
+      · simp only []
+        rw [exists_env_iff]
+        ir_simp [dd, Stmt.nth, Stmt.items, Stmt.loopBody, Gen.IpfixIR.decodeData, hf, hl, builtin_infoModel, errClasses, List.lookup, Ipfix.nonfatalErr, Err.nonfatal, getDataLength_sem, hd, IpfixProg.lenResult, hr]
+      · refine ⟨.nil, .bytes b, .int n, .elem fid ty, .bool true, ?_⟩
+        ir_simp [dd, Stmt.nth, Stmt.items, Stmt.loopBody, Gen.IpfixIR.decodeData, hf, hl, builtin_infoModel, errClasses, List.lookup, Ipfix.nonfatalErr, Err.nonfatal, getDataLength_sem, hd, IpfixProg.lenResult, hr]
+
+theorem dd7_shape : dd 7 = .loop (dd 7).loopCond (dd 7).loopBody (dd 7).loopPost := rfl
+
+theorem dd7_cond (st : St) (acc : Record) (i : Nat) (e2 e3 e4 e9 e10 x5 x6 x7 : V) :
+    eval addr st [.tpl t, .drec acc, e2, e3, e4, x5, x6, x7, .int i, e9, e10] (dd 7).loopCond =
+      some (.bool (decide (i < t.fields.length))) := by
+  ir_simp [dd, Stmt.nth, Stmt.items, Stmt.loopCond, Gen.IpfixIR.decodeData]
+
+theorem dd7_post (st : St) (acc : Record) (i : Nat) (e2 e3 e4 e9 e10 x5 x6 x7 : V) :
+    exec addr (ddLink addr fuel) fuel (dd 7).loopPost st [.tpl t, .drec acc, e2, e3, e4, x5, x6, x7, .int i, e9, e10] =
+      some (.norm, st, [.tpl t, .drec acc, e2, e3, e4, x5, x6, x7, .int (i + 1), e9, e10]) := by
+  ir_simp [dd, Stmt.nth, Stmt.items, Stmt.loopPost, Gen.IpfixIR.decodeData]
+
+/-- outcome of the second loop -/
+def Loop2Out (res : Except Err Record × Rd) (x5 x6 x7 : V) (out : Res) : Prop :=
+  match res with
+  | (.ok acc', r') => ∃ j2 j3 j4 j9 j10,
+      out = some (.norm, ⟨r', c⟩, [.tpl t, .drec acc', j2, j3, j4, x5, x6, x7, .int t.fields.length, j9, j10])
+  | (.error e, r') => ∃ env', out = some (.ret [.nil, .err ⟨Ipfix.nonfatalErr e, e⟩], ⟨r', c⟩, env')
+
+theorem dd_loop2 (x5 x6 x7 : V) : ∀ (m i k : Nat) (r : Rd) (acc : Record) (e2 e3 e4 e9 e10 : V),
+    i + m = t.fields.length → m < k →
+    Loop2Out c t (Ipfix.decFields (t.fields.drop i) r acc) x5 x6 x7
+      (loopF (fun st env => eval addr st env (dd 7).loopCond) (exec addr (ddLink addr fuel) fuel (dd 7).loopBody)
+        (exec addr (ddLink addr fuel) fuel (dd 7).loopPost) k ⟨r, c⟩
+        [.tpl t, .drec acc, e2, e3, e4, x5, x6, x7, .int i, e9, e10]) := by
+  intro m
+  induction m with
+  | zero =>
+    intro i k r acc e2 e3 e4 e9 e10 hi hk
+    obtain ⟨k, rfl⟩ : ∃ k', k = k' + 1 := ⟨k - 1, by omega⟩
+    have hd : t.fields.drop i = [] := List.drop_eq_nil_of_le (by omega)
+    rw [hd, Ipfix.decFields_nil]
+    have : ¬ (i < t.fields.length) := by omega
+    simp only [Loop2Out, loopF, dd7_cond, this, decide_false]
+    exact ⟨e2, e3, e4, e9, e10, by rw [show i = t.fields.length from by omega]⟩
+  | succ m ih =>
+    intro i k r acc e2 e3 e4 e9 e10 hi hk
+    obtain ⟨k, rfl⟩ : ∃ k', k = k' + 1 := ⟨k - 1, by omega⟩
+    have hlt : i < t.fields.length := by omega
+    have hd : t.fields.drop i = t.fields[i] :: t.fields.drop (i + 1) := List.drop_eq_getElem_cons hlt
+    have hf : t.fields[i]? = some t.fields[i] := List.getElem?_eq_getElem hlt
+    rw [hd, decFields_cons]
+    have hb := dd_body2 addr fuel c t r acc i t.fields[i] e2 e3 e4 e9 e10 x5 x6 x7 hf
+    simp only [loopF, dd7_cond, hlt, decide_true]
+    rcases hdf : decField t.fields[i] r with ⟨e | d, r'⟩
+    · simp only [hdf, Body2Out] at hb
+      obtain ⟨env', hb⟩ := hb
+      simp only [hb, Loop2Out]
+      exact ⟨env', rfl⟩
+    · simp only [hdf, Body2Out] at hb
+      obtain ⟨j2, j3, j4, j9, j10, hb⟩ := hb
+      simp only [hb, dd7_post]
+      exact ih (i + 1) k r' (acc ++ [d]) j2 j3 j4 j9 j10 (by omega) (by omega)
+end
+
+theorem decFields_append (a b : List Spec) (r : Rd) (acc : Record) :
+    Ipfix.decFields (a ++ b) r acc =
+      match Ipfix.decFields a r acc with
+      | (.error e, r') => (.error e, r')
+      | (.ok acc', r') => Ipfix.decFields b r' acc' := by
+  induction a generalizing r acc with
+  | nil => simp [Ipfix.decFields_nil]
+  | cons f fs ih =>
+    rw [List.cons_append, decFields_cons, decFields_cons]
+    rcases decField f r with ⟨e | d, r'⟩
+    · rfl
+    · exact ih r' _
+
+theorem decodeData_sem (addr : Bytes) (fuel : Nat) (r : Rd) (c : Cache) (t : Template)
+    (hs : t.scope.length < fuel) (hf : t.fields.length < fuel) :
+    IpfixProg.decodeData addr fuel [.tpl t] ⟨r, c⟩ =
+      some (⟨(Ipfix.decodeData t r).2, c⟩, [], IpfixProg.recResult (Ipfix.decodeData t r).1) := by
+  unfold IpfixProg.decodeData Func.sem
+  have henv : ([V.tpl t] ++ List.replicate (Gen.IpfixIR.decodeData.nslots - [V.tpl t].length) V.unset) =
+      [.tpl t, .unset, .unset, .unset, .unset, .unset, .unset, .unset, .unset, .unset, .unset] := rfl
+  rw [henv, dd_body]
+  have e0 : ∀ (st : St) x1 x2 x3 x4 x5 x6 x7 x8 x9 x10, exec addr (ddLink addr fuel) fuel (dd 0) st [.tpl t, x1, x2, x3, x4, x5, x6, x7, x8, x9, x10] =
+      some (.norm, st, [.tpl t, .drec [], x2, x3, x4, x5, x6, x7, x8, x9, x10]) := by
+    intros; ir_simp [dd, Stmt.nth, Stmt.items, Gen.IpfixIR.decodeData]
+  have e1 : ∀ (st : St) x1 x2 x3 x4 x5 x6 x7 x8 x9 x10, exec addr (ddLink addr fuel) fuel (dd 1) st [.tpl t, x1, x2, x3, x4, x5, x6, x7, x8, x9, x10] =
+      some (.norm, st, [.tpl t, x1, .nil, x3, x4, x5, x6, x7, x8, x9, x10]) := by
+    intros; ir_simp [dd, Stmt.nth, Stmt.items, Gen.IpfixIR.decodeData]
+  have e2 : ∀ (st : St) x1 x2 x3 x4 x5 x6 x7 x8 x9 x10, exec addr (ddLink addr fuel) fuel (dd 2) st [.tpl t, x1, x2, x3, x4, x5, x6, x7, x8, x9, x10] =
+      some (.norm, st, [.tpl t, x1, x2, .bytes [], x4, x5, x6, x7, x8, x9, x10]) := by
+    intros; ir_simp [dd, Stmt.nth, Stmt.items, Gen.IpfixIR.decodeData]
+  have e3 : ∀ (st : St) x1 x2 x3 x4 x5 x6 x7 x8 x9 x10, exec addr (ddLink addr fuel) fuel (dd 3) st [.tpl t, x1, x2, x3, x4, x5, x6, x7, x8, x9, x10] =
+      some (.norm, st, [.tpl t, x1, x2, x3, .int 0, x5, x6, x7, x8, x9, x10]) := by
+    intros; ir_simp [dd, Stmt.nth, Stmt.items, Gen.IpfixIR.decodeData]
+  have e4 : ∀ (st : St) x1 x2 x3 x4 x5 x6 x7 x8 x9 x10, exec addr (ddLink addr fuel) fuel (dd 4) st [.tpl t, x1, x2, x3, x4, x5, x6, x7, x8, x9, x10] =
+      some (.norm, st, [.tpl t, x1, x2, x3, x4, .int 0, x6, x7, x8, x9, x10]) := by
+    intros; ir_simp [dd, Stmt.nth, Stmt.items, Gen.IpfixIR.decodeData]
+  have e6 : ∀ (st : St) x1 x2 x3 x4 x5 x6 x7 x8 x9 x10, exec addr (ddLink addr fuel) fuel (dd 6) st [.tpl t, x1, x2, x3, x4, x5, x6, x7, x8, x9, x10] =
+      some (.norm, st, [.tpl t, x1, x2, x3, x4, x5, x6, x7, .int 0, x9, x10]) := by
+    intros; ir_simp [dd, Stmt.nth, Stmt.items, Gen.IpfixIR.decodeData]
+  have e8 : ∀ (st : St) (fs : Record) x2 x3 x4 x5 x6 x7 x8 x9 x10, exec addr (ddLink addr fuel) fuel (dd 8) st [.tpl t, .drec fs, x2, x3, x4, x5, x6, x7, x8, x9, x10] =
+      if fs.isEmpty then some (.ret [.nil, .err ⟨true, .emptyRec⟩], st, [.tpl t, .drec fs, x2, x3, x4, x5, x6, x7, x8, x9, x10])
+      else some (.norm, st, [.tpl t, .drec fs, x2, x3, x4, x5, x6, x7, x8, x9, x10]) := by
+    intro st fs
+    rcases fs with _ | ⟨d, fs⟩ <;> intros <;>
+      ir_simp [dd, Stmt.nth, Stmt.items, Gen.IpfixIR.decodeData, errClasses, List.lookup]
+  have e9 : ∀ (st : St) (fs : Record) x2 x3 x4 x5 x6 x7 x8 x9 x10, exec addr (ddLink addr fuel) fuel (dd 9) st [.tpl t, .drec fs, x2, x3, x4, x5, x6, x7, x8, x9, x10] =
+      some (.ret [.drec fs, .nil], st, [.tpl t, .drec fs, x2, x3, x4, x5, x6, x7, x8, x9, x10]) := by
+    intros; ir_simp [dd, Stmt.nth, Stmt.items, Gen.IpfixIR.decodeData]
+  have l1 := dd_loop1 addr fuel c t .unset .unset .unset t.scope.length 0 fuel r [] .nil (.bytes []) (.int 0) .unset .unset (by omega) hs
+  simp only [blk, exec, e0, e1, e2, e3, e4]
+  rw [dd5_shape]
+  simp only [exec]
+  unfold Ipfix.decodeData
+  rw [decFields_append]
+  rw [List.drop_zero] at l1
+  rcases h1 : Ipfix.decFields t.scope r [] with ⟨e | acc1, r1⟩
+  · simp only [h1, Loop1Out] at l1
+    obtain ⟨env', l1⟩ := l1
+    simp [l1, IpfixProg.recResult, Gen.IpfixIR.decodeData, readSlots, refSlots, List.filter, ParamKind.hasSlot]
+  · simp only [h1, Loop1Out] at l1
+    obtain ⟨j2, j3, j4, j6, j7, l1⟩ := l1
+    have l2 := dd_loop2 addr fuel c t (.int t.scope.length) j6 j7 t.fields.length 0 fuel r1 acc1 j2 j3 j4 .unset .unset (by omega) hf
+    rw [List.drop_zero] at l2
+    simp only [l1, e6]
+    rw [dd7_shape]
+    simp only [exec]
+    rcases h2 : Ipfix.decFields t.fields r1 acc1 with ⟨e | acc2, r2⟩
+    · simp only [h2, Loop2Out] at l2
+      obtain ⟨env', l2⟩ := l2
+      simp [l2, IpfixProg.recResult, Gen.IpfixIR.decodeData, readSlots, refSlots, List.filter, ParamKind.hasSlot]
+    · simp only [h2, Loop2Out] at l2
+      obtain ⟨k2, k3, k4, k9, k10, l2⟩ := l2
+      simp only [l2, e8]
+      by_cases hem : acc2.isEmpty
+      · simp [hem, IpfixProg.recResult, Gen.IpfixIR.decodeData, readSlots, refSlots, List.filter, ParamKind.hasSlot, Ipfix.nonfatalErr]
+      · simp [hem, e9, IpfixProg.recResult, Gen.IpfixIR.decodeData, readSlots, refSlots, List.filter, ParamKind.hasSlot]
 
 end Vflow.IpfixIR
